@@ -779,7 +779,9 @@ def run(ctx):
             ctx.report("E1 correspondence broken: LP of kPathCoverCycles differs from WalkEncRows.encode_kpcc: " + "; ".join(d[:3]),
                        {"kind": "e1", "class": "kPathCoverCycles", "edges": [list(e) for e in G.edges()], "k": args["k"], "opts": o, "diff": d}, concrete=False)
         ctx.case(["kpcc", sorted(map(list, G.edges())), args["k"], sorted(o.items()), cons, ign], nontrivial=True)
-    _mark('E'); ctx.notes.append({"section_wall_s": _marks})
+    _mark('E')
+    run_ignore_minimality(ctx, ctx.budget(12, 200)); _mark('I')
+    ctx.notes.append({"section_wall_s": _marks})
 
 
 def witness_replay(ctx):
@@ -798,6 +800,36 @@ def witness_replay(ctx):
         elif not m.is_solved():
             ctx.report("kFlowDecompCycles: self-loop with flow 1/4 (float weights) is infeasible although it is the walk x x with weight 1/4",
                        {"kind": "witness", "flow": f, "status": m.solver.get_model_status()}, key=KEY_CAP)
+
+
+def run_ignore_minimality(ctx, n):
+    """tiny integer instances WITH an ignore list: MinFlowDecompCycles' number of walks against the VERIFIED oracle
+    WalkOracle.min_wfd_model_ign (least number of walks within the model's caps on the ignored edges)"""
+    import flowpaths as fp
+    for i in range(n):
+        rng = ctx.rng("ignmin", i)
+        G, walks, ws = tiny_instance(rng)
+        es = list(G.edges())
+        ign = [e for e in es if rng.random() < 0.3]
+        if not ign or len(ign) == len(es):
+            continue
+        args = dict(G=G, flow_attr="flow", weight_type=int, subset_constraints=[], elements_to_ignore=ign,
+                    optimization_options=rand_mfdc_opts(rng), solver_options={"threads": THREADS})
+        res = solve_mfdc(ctx, args)
+        if "error" in res:
+            ctx.report("MinFlowDecompCycles raised " + res["error"], {"kind": "crash", "class": "MinFlowDecompCycles", "args": describe(args)}); continue
+        impl_k = res["k"] if res["solved"] else None
+        upto = 3 if impl_k is None else min(3, impl_k)
+        flow = {(u, v): int(d["flow"]) for u, v, d in G.edges(data=True)}
+        vk = voracle_walks.verified_min_ign(ctx, G, flow, ign, upto)
+        ctx.count("E2_minimality", "verified_oracle_decided_with_ignore_list")
+        ctx.case(["ignmin", describe(args)], nontrivial=True)
+        if impl_k is not None and impl_k <= 3 and vk != impl_k or (impl_k is None and vk is not None) or (impl_k is not None and impl_k > 3 and vk is not None):
+            if presolve_false_infeasible(ctx, res):
+                continue
+            ctx.report(f"MinFlowDecompCycles {'is unsolved' if impl_k is None else 'returns %d walks' % impl_k} with an ignore list; the verified oracle says the "
+                       f"least number of walks within the caps (<= {upto}) is {vk}",
+                       {"kind": "minimality_ignore", "class": "MinFlowDecompCycles", "args": describe(args), "verified": vk, "implementation_walks": impl_k})
 
 
 def replay(ctx, body):
